@@ -192,7 +192,7 @@ def _c07() -> SimEngine:
 
 def _c08() -> SimEngine:
     prof = profile(sizes=[1, 2, 2, 3, None], end_with_close=0.9, p_cb=0.6, p_cb_wait=0.5, p_callfault=0.15,
-                   ops={"close": 1.5, "until_closed": 1.2, "cancel_group": 1.5, "cancel": 1, "spawn": 9, "gate": 8, "lock": 0.3, "flush": 1.2, "abandon": 0.8})
+                   ops={"close": 1.5, "until_closed": 1.2, "cancel_group": 1.5, "cancel": 1, "spawn": 9, "gate": 8, "lock": 0.3, "flush": 1.2, "abandon": 0.8, "abandon_uc": 0.8})
 
     def sw(tier: str):
         perts = [{"op": "close", "pool": 0}, {"op": "close", "pool": 0, "re": True}]
